@@ -73,6 +73,8 @@ def ref_set(seed, count=8):
         pieces = [gen.content(r.choice(["license", "text", "random"]), r.randrange(1, 300), r.random()) for _ in range(nch)]
         db = gen.content("license", r.choice([50, 500]), 5) if r.random() < 0.5 else b""
         uncomp = r.random() < 0.3
+        if i % 8 == 4:
+            comp, uncomp = 2, True   # (always present: zstd + uncompressed-source flag, with an equal-size chunk - see below)
         cht = r.choice([1, 2]) if uncomp else r.choice([0, 1, 2, 3])
         # layouts another writer may legitimately emit and the library's own writer never does: unused bytes behind the signatures
         # (inside the declared header size), optional header elements
